@@ -97,6 +97,7 @@ Inductive ccase :=
 | CProg (code input : string) (gas : Z) (E : env) (obs : pobs)
 | CProgImpl (code input : string) (gas : Z) (E : env) (obs : pobs)   (* interpreter-shaped model only: runs on which the
      ghost monitor fires (identity call with overlapping areas), where the Yellow-Paper machine is expected to differ *)
+| CRd (kind : Z) (out observed : string)   (* one callee frame of the given ending; RETURNDATACOPY of the whole buffer *)
 | CTable
 | CJump (code bitmap : string) (dests : list (Z * bool)).
 
@@ -121,6 +122,11 @@ Definition check (P : params) (cs : ccase) : bool :=
       let fuel := (Z.to_nat (Z.min gas 40000) + 2)%nat in
       let '(o, maxh) := run_fast khash E P c inp fuel gas in
       obs_eqb o obs && (maxh <=? 1024)
+  | CRd k out observed =>
+      let o := zbytes out in
+      let e := if k =? 0 then FCallOk o else if k =? 1 then FCallRevert o else if k =? 2 then FCallFail
+               else if k =? 3 then FCreateOk else if k =? 4 then FCreateRevert o else FCreateFail in
+      zlist_eqb (rd_after e) (zbytes observed)
   | CTable => table_ok (defined_of P) P
   | CJump code bm dests =>
       let c := zbytes code in
